@@ -1,7 +1,8 @@
+import TplModel.Props.RenderProps
 import TplModel.Props.C05refine
 /-! # C03 — conditional chains render exactly the first true branch
 
-OBLIGATIONS: RN.exec_refines_ref, RN.execute_refines, RN.execute_flags
+OBLIGATIONS: RN.exec_refines_ref, RN.execute_refines, RN.execute_flags, RN.Props.chain_refines_spec, RN.Props.chain_first_true, RN.Props.chain_none_true, RN.Props.unselected_evaluates_only_with, RN.Props.unselected_after_evaluates_only_with, RN.Props.unselected_before_evaluates_with_and_cond, RN.Props.orphan_else_is_error, RN.Props.cond_error_propagates
 
 The chain semantics is that of the structural specification `RN.refNode` (condition phase: `if` evaluates its own
 condition; `else-if`/`else` consult the recorded result of the previous sibling tag, are skipped — recording
@@ -9,6 +10,6 @@ condition; `else-if`/`else` consult the recorded result of the previous sibling 
 that the re-entrant implementation model computes exactly that, for all trees, environments and data, and restores
 its flags; `RN.execute_flags`/`execute` start every execution from empty condition records (history independence).
 The chain corollaries on `refKids` (first true branch, unselected elements evaluate only their `with`) are in
-Props/RenderProps when delivered; the harness checks them exhaustively for chains of length ≤ 4. -/
+Props/RenderProps (`RN.Props.chain_*`, listed above); the harness also checks them exhaustively for chains of length ≤ 4. -/
 namespace C03
 end C03
